@@ -57,6 +57,9 @@ const SOURCES: &[Source] = &[
     // fusable tagged rules with debug texts, optimised: the tagged list is rebuilt (and fused) whenever
     // the receiving engine switches tags, from whatever the buffer said about each rule
     Source { name: "tagged+fused+debug", rules: &["adv$tag=a", "advert$tag=a", "advice$tag=a", "@@adv1$tag=a", "@@adv2$tag=a"], debug: true, optimize: true, tags: &["a"], perm: 0 },
+    // one rule per modifier option (the option value shares one slot of the format with the others;
+    // which one it is, is decided by mask bits that a fault can move)
+    Source { name: "modifiers", rules: &["||p.com^$removeparam=utm", "*$removeparam=ref", "||c.com^$csp=d1", "@@||c.com^$csp=d1", "||r.com^$redirect-rule=a", "||r.com/x$redirect=a"], debug: false, optimize: true, tags: &[], perm: 0 },
 ];
 
 fn resources() -> Vec<adblock::resources::Resource> {
@@ -389,6 +392,7 @@ fn battery_urls(buf: &[u8]) -> (Vec<String>, Vec<String>) {
     // strings found in the (faulty) buffer, so that decoded rules are actually exercised
     let mut run = String::new();
     let mut seen = 0;
+    let mut runs: Vec<String> = vec![];
     for &c in buf.iter().chain(std::iter::once(&0u8)) {
         if c.is_ascii_alphanumeric() || c == b'.' || c == b'-' {
             run.push(c as char);
@@ -396,11 +400,19 @@ fn battery_urls(buf: &[u8]) -> (Vec<String>, Vec<String>) {
             if run.len() >= 3 && seen < 24 {
                 net.push(format!("https://{}/{}", run, run));
                 cos.push(format!("https://{}/", run));
+                runs.push(run.clone());
                 seen += 1;
             }
             run.clear();
         }
     }
+    // the same hosts with a query string that names every such string as a parameter (rules that
+    // rewrite the query have work to do)
+    let query: String = runs.iter().map(|r| format!("{}=1", r)).collect::<Vec<_>>().join("&");
+    for r in &runs {
+        net.push(format!("https://{}/q?{}", r, query));
+    }
+    net.push(format!("https://other.org/q?{}", query));
     (net, cos)
 }
 
@@ -643,7 +655,7 @@ fn record(buffer: usize, f: &Src, res: ShardResult, l: &mut Local) {
 
 fn check(ctx: &Ctx) -> i32 {
     let buffers: Vec<usize> = match ctx.tier {
-        Tier::Quick => vec![0, 1, 2, 5, 12, 13],
+        Tier::Quick => vec![0, 1, 2, 5, 12, 13, 14],
         Tier::Thorough => (0..SOURCES.len()).collect(),
     };
     let pair_buffers: Vec<usize> = if ctx.tier == Tier::Thorough { vec![5, 6, 0] } else { vec![] };
